@@ -301,9 +301,15 @@ def monitors (d : DState) (acts : List DAct) (st rets : List String) (locks : Na
   let users := thr.filter fun t => (at' rets t == "f" || at' rets t == "s") && (dvia[t]?).getD 0 ≥ 3
   let userNames := (users.map fun t =>
     s!"{userName ((dvia[t]?).getD 0)}/{userPathName d.cls ((did[t]?).getD 0) ((dvia[t]?).getD 0)}").eraseDups
-  -- one user returned: it is the one that leaked; several: all are named (the observation cannot tell them apart)
-  let leakName := if userNames.isEmpty then "no_leak" else "no_leak/" ++ "+".intercalate userNames
-  let v6 := if locks > refd then [Verdict.monitor leakName s!"locks={locks},referenced={refd}"]
+  -- the call of one user, and it returned in this step: it is the one that leaked.  In bursts and
+  -- hand-off chains several callers return at once and the observation cannot tell them apart:
+  -- plain `no_leak`, the users are listed in the detail.
+  let single := match acts, users with
+    | [.lock t _ _ _], [u] => t == u
+    | _, _ => false
+  let leakName := if single then "no_leak/" ++ "+".intercalate userNames else "no_leak"
+  let leakDetail := if userNames.isEmpty then "" else ",returned=" ++ "+".intercalate userNames
+  let v6 := if locks > refd then [Verdict.monitor leakName s!"locks={locks},referenced={refd}{leakDetail}"]
     else if locks < refd then [Verdict.monitor "entry_lost" s!"locks={locks},referenced={refd}"] else []
   v1 ++ v2 ++ v3 ++ v4 ++ v5 ++ v6
 
